@@ -280,7 +280,9 @@ def check_scans(ctx, kinds=('lower', 'higher', 'closest'), fill_true_only=False,
                   f"{m.resized}", fi.loc(), fi.qualname, f"{kind}:resized")
         ctx.check(isinstance(alloc, Term) and all(veq(r, alloc) for r in roots(m.result)), 'C10.3', f"{kind}: the function returns the index array", show(m.result, 80), fi.loc(), fi.qualname, f"{kind}:return")
         conds = [Pf['cond'], Mn['cond'], Ad['cond']] + [g for e in m.ev.events for g in e.guard]
-        truthy = sorted(set(_sentinel_tests(conds)))
+        # (truthiness of an element / a query / a look-ahead value, or an equality test against None - not the truthiness of an unrelated flag or of
+        # a whole-array validation such as `np.isnan(x).any()`)
+        truthy = sorted(set(t_ for t_ in _sentinel_tests(conds) if not t_.startswith('truthy(')) | _element_truthiness(conds, m.ev))
         ctx.check(not truthy, 'C10.3', f"{kind}: the None sentinel is tested by identity, not by truthiness (an element equal to 0 is a legitimate value)",
                   f"{truthy[:3]}", fi.loc(), fi.qualname, f"{kind}:sentinel")
         bad = []
